@@ -113,6 +113,25 @@ def merge_reports(files):
     return merged
 
 
+def reattribute(viols):
+    """Capacity-bookkeeping violations (C04/C05/C07/C08 kinds) that were only ever observed while the
+    cache carried traces of an expiry purge / an invalidation belong to C06 ("the expired entry no
+    longer occupies capacity") / C13 ("limits behave as if the removed entries had never been
+    stored").  If the same kind also occurs without such traces it stays with its base property."""
+    def base_key(v):
+        p = v["sig"].split("|")
+        return tuple(p[:5])
+    untainted = {base_key(v) for v in viols if not v.get("taint")}
+    for v in viols:
+        if v.get("taint") and base_key(v) not in untainted and v.get("alt_property"):
+            parts = v["sig"].split("|")
+            parts[0] = v["alt_property"]
+            parts[4] = parts[4] + "-after-" + v["taint"]
+            v["base_property"] = v["property"]
+            v["property"] = v["alt_property"]
+            v["sig"] = "|".join(parts)
+
+
 # ------------------------------------------------------------------------------------------
 # known findings
 # ------------------------------------------------------------------------------------------
@@ -144,7 +163,20 @@ def eng_l1(prop, tier, seed):
     return res
 
 
-ENGINES = {"l1": eng_l1}
+def eng_l2(prop, tier, seed):
+    cargo_build(["l2"])
+    n = JOBS
+    # every l2mon shard runs `rounds` fresh child processes; each child gives every function in
+    # focus exactly one history (nothing carries over between histories)
+    rounds = int(os.environ.get("VERIF_L2_ROUNDS", "0")) or (6000 if tier == "thorough" else 250)
+    cmds = []
+    for i in range(n):
+        out = os.path.join(OUT, f"{prop}-l2-{i}.json")
+        cmds.append(([bin_path("l2mon"), "--out", out, "--seed", str(seed), "--shard", f"{i}/{n}", "--tier", tier, "--focus", prop, "--rounds", str(rounds)], out))
+    return run_shards(f"{prop}-l2", cmds, 1200 if tier == "quick" else 14400)
+
+
+ENGINES = {"l1": eng_l1, "l2": eng_l2}
 
 # property -> (engines, level, rule text, assumptions)
 PROPS = {}
@@ -165,8 +197,13 @@ L1_RULE = ("generated lookup/store/advance histories (40-200 ops + fill probe, r
            "run on the real engines (GlobalCache / ThreadLocalCache / AsyncGlobalCache) with harness-owned storage and a virtual clock; after every operation the result, the whole store "
            "(keys, values) and the hit/miss counters are compared with the specification model (belief monitor). ")
 
-prop("C01", ["l1"], "exploration",
-     L1_RULE + "Non-trivial = a lookup of a stored key (value must be the last one stored for that key); distinct = distinct (configuration, key, hit-count class, store size).",
+L2_RULE = ("MACRO LEVEL: generated multi-cache histories (30-120 operations + closing sweep) over groups of 1-6 functions of a generated corpus of 420 #[cache]/#[cache_async] functions "
+           "(attribute presence/values x 10 argument shapes x free fn/&self/&mut self/self x 10 return kinds), calls issued from 1-4 worker threads (serialised), bodies scripted by the harness "
+           "(fresh value per execution or deterministic, Ok/Err, payload size, cache_if and invalidate_on verdicts), virtual clock, conditional and group invalidations, stats resets; after every "
+           "operation: returned value, body executed?, predicate/check invocations, key listing (never-matching invalidate_with predicate) and stats_registry are compared with the wrapper model. ")
+
+prop("C01", ["l1", "l2"], "exploration",
+     L1_RULE + L2_RULE + "Non-trivial = a lookup of a stored key (value must be the last one stored for that key); distinct = distinct (configuration, key, hit-count class, store size).",
      COMMON_ASSUME, ("C01", "lookups_of_stored_key"))
 prop("C05", ["l1"], "exploration",
      L1_RULE + "Values: String, Vec<u8>, Vec<String>, Option<String>, Result<String,String>, (String,Vec<u32>), Box<String>, a user type with its own estimator; sizes around M/3, M/2, M-1, M, M+1, >M, with slack capacity. Sizes are measured by an independent footprint oracle. Non-trivial = a store under memory pressure; distinct = distinct (configuration, residents, order shape, size class).",
@@ -180,9 +217,33 @@ prop("C07", ["l1"], "exploration",
 prop("C08", ["l1"], "exploration",
      L1_RULE + "Non-trivial = an overflowing store under LFU/ARC/TLRU whose victim must be a score minimiser over the residents or over residents+newcomer; distinct = distinct (configuration, order shape, hit-count vector).",
      COMMON_ASSUME + ["sync engines always hold a zero-score newcomer, so for them the check only establishes that a zero-score entry was evicted (stated in DESIGN.md C08)"], ("C08", "victims_checked_with_unique_resident_minimiser"))
-prop("C16", ["l1"], "exploration",
+prop("C16", ["l1", "l2"], "exploration",
      L1_RULE + "Every operation runs under catch_unwind in a build with overflow checks and debug assertions. Non-trivial/distinct = configurations of the full product visited (each with overflow-heavy histories).",
      COMMON_ASSUME, ("C16", "ops_under_catch_unwind"))
+prop("C03", ["l2"], "exploration",
+     L2_RULE + "Focus: functions with no limit/ttl/max_memory/cache_if/invalidate_on. Non-trivial = a repeat call for an argument tuple already stored (must not run the body; once per thread for scope=thread); at the end of every history without invalidations the execution count per distinct tuple must be exactly 1. Distinct = distinct (function, tuple, stored-before?, thread).",
+     COMMON_ASSUME, ("C03", "repeat_calls_on_unbounded_caches"))
+prop("C09", ["l2"], "exploration",
+     L2_RULE + "Focus: functions returning Result / std::result::Result without cache_if (all scopes, policies, limits, with and without max_memory). Outcomes follow an arbitrary Ok/Err script per call. Non-trivial = a scripted Err outcome; distinct = distinct (function, tuple, cached?, outcome, previous non-store reason).",
+     COMMON_ASSUME, ("C09", "err_outcomes_scripted"))
+prop("C10", ["l2"], "exploration",
+     L2_RULE + "Focus: functions with cache_if. Verdicts follow an arbitrary accept/reject script; every invocation is logged with key and value digest. Non-trivial = a rejecting verdict; distinct = distinct (function, tuple, cached?, verdict, outcome).",
+     COMMON_ASSUME, ("C10", "rejecting_verdicts_scripted"))
+prop("C11", ["l2"], "exploration",
+     L2_RULE + "Focus: functions with invalidate_on; the check's verdict is scripted per call (changes between calls); bodies return a fresh value per execution so a refresh is visible. Non-trivial = a 'stale' verdict on a cached entry; distinct = distinct (function, tuple, verdict, cache size).",
+     COMMON_ASSUME, ("C11", "stale_verdicts_on_cached_entries"))
+prop("C12", ["l2"], "exploration",
+     L2_RULE + "Focus: tag/event/dependency/name requests (including names nothing declares, names declared in another table, names of unused or metadata-less caches) in many short-lived processes, so that 'used at least once' varies; expected matches are computed from the generator's metadata table over the whole corpus. Non-trivial = a request; distinct = distinct (kind, name, set of matching used caches).",
+     COMMON_ASSUME, ("C12", "group_invalidation_requests"))
+prop("C13", ["l2"], "exploration",
+     L2_RULE + "Focus: invalidate_with / invalidate_all_with with predicates = arbitrary subsets of the stored keys (per cache), followed by further history so that leftover bookkeeping shows as a wrong later eviction. Non-trivial = a conditional invalidation; distinct = distinct (function, entries before, subset).",
+     COMMON_ASSUME, ("C13", "conditional_invalidations"))
+prop("C14", ["l2"], "exploration",
+     L2_RULE + "Focus: every function called from 2-4 worker threads in random serial orders; scope=thread functions have one model per thread, global/async ones a single shared model. Non-trivial = a call on a multi-thread history; distinct = distinct (function, tuple, calling thread, thread that stored it, cached?).",
+     COMMON_ASSUME + ["free-running thread interleavings are covered by the concurrency monitor, not here"], ("C14", "thread_scope_calls_multi_actor"))
+prop("C15", ["l2"], "exploration",
+     L2_RULE + "Focus: global and async functions (custom names included): stats_registry::get(name) must equal the model's hit/miss counters after every call, invalidation and reset; a reset of one name must leave the others unchanged. Non-trivial = a comparison; distinct = distinct (function, hits, misses) triples.",
+     COMMON_ASSUME, ("C15", "stats_comparisons"))
 prop("C04", ["l1"], "exploration",
      "generated lookup/store/advance histories (40-200 ops + fill probe) for every configuration of the product flavour x policy x limit x ttl x max_memory x frequency_weight, on the real engines with harness-owned storage; after every operation the whole store is compared with the specification model. Non-trivial = a store that overflows the entry limit; distinct = distinct (configuration, number of residents, replacing?, recency/insertion order shape, size class) tuples among those.",
      COMMON_ASSUME, ("C04", "overflowing_stores"))
@@ -300,6 +361,7 @@ def main():
             elif rc not in (0, 3):
                 errors.append(f"{os.path.basename(outfile)}: exit {rc}: {tail[-400:]}")
     merged = merge_reports(files)
+    reattribute(merged["violations"])
     known = load_known()
     os.makedirs(REPLAYS, exist_ok=True)
     new_viol, known_hits = [], {}
@@ -352,6 +414,10 @@ def replay(path):
     if mon == "l1mon":
         cargo_build(["l1"])
         r = subprocess.run([bin_path("l1mon"), "--replay", path, "--out", "/dev/null"], cwd=ROOT, env=ENV)
+        sys.exit(r.returncode)
+    if mon == "l2mon":
+        cargo_build(["l2"])
+        r = subprocess.run([bin_path("l2mon"), "--replay", path, "--out", "/dev/null"], cwd=ROOT, env=ENV)
         sys.exit(r.returncode)
     log(f"no replayer for monitor {mon}")
     sys.exit(2)
